@@ -1024,8 +1024,20 @@ def check_compact(ck, prog, rule="C15-PROTO"):
             if not (src.get("k") == "bin" and src["op"] == "+" and ex.show(src["l"]) == "coder->buffer"):
                 continue
             X = ex.show(src["r"])
-            subs = [ex.show(r) for bb, ii, ee in f.iter_elems() if bb.id == b.id
-                    for (l, r, op, nd) in ex.writes(ee) if ex.show(l) == "coder->size" and op == "-=" and r is not None]
+            def sub_amount(l, r, op):
+                """X of `coder->size -= X` / `coder->size = coder->size - X`, else None"""
+                if ex.show(l) != "coder->size" or r is None:
+                    return None
+                if op == "-=":
+                    return ex.show(r)
+                rs = ex.strip(r)
+                while rs is not None and rs.get("k") == "paren":
+                    rs = ex.strip(rs["e"])
+                if op == "=" and rs is not None and rs.get("k") == "bin" and rs["op"] == "-" and ex.show(rs["l"]) == "coder->size":
+                    return ex.show(rs["r"])
+                return None
+            subs = [sub_amount(l, r, op) for bb, ii, ee in f.iter_elems() if bb.id == b.id
+                    for (l, r, op, nd) in ex.writes(ee) if sub_amount(l, r, op) is not None]
             n += 1
             ok = subs == [X]
             ck.ob(rule, "compact-by-same-amount", ok, common.where(f, c),
@@ -1034,9 +1046,9 @@ def check_compact(ck, prog, rule="C15-PROTO"):
                   "reduced by %s: [pos, size) then covers bytes that are not there (data duplicated or lost when the output is "
                   "consumed in small pieces)" % (X, subs or "nothing"), key="PROTO:compact-by-same-amount")
             # ... and by the value X had when the bytes were moved: no store to X between the memmove and the subtraction
-            order = [(ii, "sub" if (ex.show(l) == "coder->size" and op == "-=") else "reset")
+            order = [(ii, "sub" if sub_amount(l, r, op) is not None else "reset")
                      for bb, ii, ee in f.iter_elems() if bb.id == b.id
-                     for (l, r, op, nd) in ex.writes(ee) if (ex.show(l) == "coder->size" and op == "-=") or ex.show(l) == X]
+                     for (l, r, op, nd) in ex.writes(ee) if sub_amount(l, r, op) is not None or ex.show(l) == X]
             order.sort()
             sub_i = [ii for ii, w in order if w == "sub"]
             early = [ii for ii, w in order if w == "reset" and sub_i and ii < sub_i[0]]
